@@ -606,6 +606,9 @@ def run(cx, rep):
     # ---------------------------------------------------------------- C09.10
     rep.rule("C09.10", "a lookup that follows `export *` continues with the target module's complete lookup")
     star_hop_rule(cx, rep, "C09.10")
+    # ---------------------------------------------------------------- C09.19
+    rep.rule("C09.19", "a set-once slot (the default export) is set at most once per processed export item")
+    set_once_rule(cx, rep, "C09.19")
 
 
 def star_hop_rule(cx, rep, rid):
@@ -1237,3 +1240,226 @@ def star_shadowing_rule(cx, rep, rid):
                    "%s collects the members of the `export *` targets and hides those the module exports itself by looking at %s only: a name the module re-exports explicitly (`export { x } from \"./a\"`, table named_unknown) is overridden by the `x` of a star target" % (g, ", ".join(sorted(tests))),
                    "%s:%s" % (f.file, lp.get("line")), sample={"fn": g, "tables_consulted": sorted(tests)})
     rep.ob(rid, "scan", True, sample={"collecting_star_walks": n})
+
+
+# ---------------------------------------------------------------------------------------------------------------------
+def set_once_rule(cx, rep, rid):
+    """A *set-once slot* is a field with a setter that panics when the slot is already filled (today: the default export
+    of a module).  *Keyed wrappers* reach the setter when their key parameter equals a reserved literal (`insert_type`,
+    `insert_value`, `insert_unknown` for the key "default").  Decided: on no syntactic path through ONE processed item
+    (one loop iteration / one visitor call) can the setter be reached twice - counting direct setter calls and calls
+    to keyed wrappers whose key may be the reserved word.  A key may be the reserved word when it derives from export-
+    specifier syntax (a value of type `ModuleExportName`, or a struct field that was filled from one): `export { E as
+    default }`.  The identifier of a declaration (`enum E`, `const x`) is never a reserved word, so the two inserts of
+    `export enum E` are fine.  Necessary for C04 (no panic) and C09 (the split program gives the single-file result)."""
+    F = cx.rs
+    crate = "beff_core"
+    trees = {g: t for g, t in F.hir.items() if F.fns.get(g) is not None and F.fns[g].crate == crate}
+
+    def callee_gid(n):
+        c = n.get("callee") if n["k"] == "Call" else (n.get("resolved") or n.get("callee"))
+        return F._callee_gid(crate, c) if c else None
+
+    def has_panic(n):
+        return any(x["k"] == "Call" and "panicking" in (x.get("callee") or "") for x in walk(n))
+
+    # ---- setters: `if self.f.is_some() { panic } ... self.f = ..`
+    setters = {}
+    for g, t in trees.items():
+        guarded = set()
+        for n in walk(t["body"]):
+            if n["k"] == "If" and has_panic(n["then"]):
+                for c in walk(n["cond"]):
+                    if c["k"] == "MethodCall" and c.get("method") == "is_some" and c["recv"]["k"] == "Field":
+                        guarded.add((c["recv"].get("adt"), c["recv"]["name"]))
+        for n in walk(t["body"]):
+            if n["k"] == "Assign" and n["l"]["k"] == "Field" and (n["l"].get("adt"), n["l"]["name"]) in guarded:
+                setters[g] = "%s.%s" % (n["l"].get("adt"), n["l"]["name"])
+    rep.floor(rid, "set-once setters (panic when the slot is filled)", len(setters), 1)
+
+    def param_lids(t):
+        out = []
+        for p in t.get("params", []):
+            out.append([b.get("lid") for b in walk(p) if b["k"] == "P.Binding"])
+        return out
+
+    def args_of(n):
+        return ([n["recv"]] if n["k"] == "MethodCall" else []) + list(n.get("args") or [])
+
+    # ---- keyed wrappers, level 1: the setter call sits under `if <param> == "<lit>"`
+    keyed = {}       # gid -> (param index, reserved literal)
+    for g, t in trees.items():
+        pl = param_lids(t)
+        for n in walk(t["body"]):
+            if n["k"] != "If":
+                continue
+            if not any(x["k"] in ("Call", "MethodCall") and callee_gid(x) in setters for x in walk(n["then"])):
+                continue
+            for c in walk(n["cond"]):
+                if c["k"] == "Binary" and c.get("op") == "Eq":
+                    sides = [c["l"], c["r"]]
+                    lit = [s for s in sides if s["k"] == "Lit" and s.get("lit") == "str"]
+                    loc = [s for s in sides for p_ in walk(s) if p_["k"] == "Path" and p_.get("res") == "local"]
+                    if lit and loc:
+                        lids = {p_.get("lid") for s in loc for p_ in walk(s) if p_["k"] == "Path"}
+                        for i, ps in enumerate(pl):
+                            if lids & set(ps):
+                                keyed[g] = (i, lit[0].get("v"))
+    rep.floor(rid, "keyed wrappers of a set-once setter", len(keyed), 3)
+
+    # ---- taint: values that may spell the reserved word
+    SPEC = "ModuleExportName"
+    derivs = {g: Deriv(t) for g, t in trees.items()}
+
+    def closure_paths(D, expr, depth=0, seen=None):
+        seen = seen if seen is not None else set()
+        for x in walk(expr):
+            yield x
+            if x["k"] == "Path" and x.get("res") == "local" and x.get("lid") in D.src and x.get("lid") not in seen and depth < 8:
+                seen.add(x["lid"])
+                for e in D.src[x["lid"]]:
+                    for y in closure_paths(D, e, depth + 1, seen):
+                        yield y
+    tainted_fields = set()
+
+    def tainted(g, expr):
+        for x in closure_paths(derivs[g], expr):
+            if x["k"] == "Path" and SPEC in (x.get("ty") or ""):
+                return True
+            if x["k"] == "Field" and (x.get("adt"), x["name"]) in tainted_fields:
+                return True
+        return False
+    for _ in range(3):
+        before = len(tainted_fields)
+        for g, t in trees.items():
+            for n in walk(t["body"]):
+                if n["k"] == "Struct" and n.get("def_local"):
+                    for fl in n.get("fields") or []:
+                        if tainted(g, fl["e"]):
+                            tainted_fields.add((n.get("def"), fl["name"]))
+        if len(tainted_fields) == before:
+            break
+
+    # ---- events and per-path counts
+    wrappers2 = {}    # gid -> (param index, count): local functions that reach the setter through their own parameter
+
+    def weight(g, n):
+        if n["k"] not in ("Call", "MethodCall"):
+            return 0
+        tg = callee_gid(n)
+        if tg in setters:
+            return 1
+        idx = None
+        w = 1
+        if tg in keyed:
+            idx = keyed[tg][0]
+        elif tg in wrappers2:
+            idx, w = wrappers2[tg]
+        if idx is None:
+            return 0
+        a = args_of(n)
+        if idx >= len(a):
+            return 0
+        return w if tainted(g, a[idx]) else 0
+
+    def param_weight(g, n, pl):
+        """for wrapper discovery: the key argument of a keyed call is one of g's own parameters"""
+        if n["k"] not in ("Call", "MethodCall"):
+            return None
+        tg = callee_gid(n)
+        idx = keyed[tg][0] if tg in keyed else (wrappers2[tg][0] if tg in wrappers2 else None)
+        if idx is None:
+            return None
+        a = args_of(n)
+        if idx >= len(a):
+            return None
+        lids = {x.get("lid") for x in closure_paths(derivs[g], a[idx]) if x["k"] == "Path" and x.get("res") == "local"}
+        for i, ps in enumerate(pl):
+            if lids & set(ps):
+                return i
+        return None
+
+    class Counter:
+        def __init__(self, wfun):
+            self.w = wfun
+            self.best = 0
+            self.where = []
+
+        def note(self, st):
+            for c in st:
+                if len(c) > self.best:
+                    self.best = len(c)
+                    self.where = list(c)
+
+        def ev(self, n, st):
+            if n is None or not isinstance(n, dict) or not st:
+                return st
+            k = n.get("k")
+            if k == "Closure":
+                self.note(self.ev(n.get("body"), {()}))
+                return st
+            if k == "BlockExpr":
+                return self.ev(n["block"], st)
+            if k == "Block":
+                for s in n.get("stmts") or []:
+                    st = self.ev(s, st)
+                return self.ev(n.get("expr"), st) if n.get("expr") is not None else st
+            if k == "If":
+                st = self.ev(n["cond"], st)
+                return self.ev(n["then"], st) | (self.ev(n.get("else"), st) if n.get("else") else st)
+            if k == "Match":
+                st = self.ev(n["scrut"], st)
+                out = set()
+                for a in n["arms"]:
+                    out |= self.ev(a["body"], self.ev(a.get("guard"), st) if a.get("guard") else st)
+                return out
+            if k == "Loop":
+                self.note(self.ev(n["body"], {()}))
+                return st
+            if k in ("Ret", "Break", "Continue"):
+                if n.get("e"):
+                    st = self.ev(n["e"], st)
+                self.note(st)
+                return set()
+            if k in ("LetStmt", "Let"):
+                st = self.ev(n.get("init"), st)
+                if n.get("els"):
+                    self.ev(n["els"], st)
+                return st
+            for c in children(n):
+                if c["k"].startswith("P."):
+                    continue
+                st = self.ev(c, st)
+            w = self.w(n)
+            if w:
+                st = {(c + (n["line"],) * w)[:4] for c in st}
+                self.note(st)
+            return st
+
+    from facts import children
+    # wrapper discovery (two rounds are enough for helper-of-helper)
+    for _ in range(2):
+        for g, t in trees.items():
+            if g in keyed or g in setters:
+                continue
+            pl = param_lids(t)
+            for i in range(len(pl)):
+                cnt = Counter(lambda n, g=g, i=i, pl=pl: 1 if param_weight(g, n, pl) == i else 0)
+                cnt.note(cnt.ev(t["body"], {()}))
+                if cnt.best:
+                    wrappers2[g] = (i, cnt.best)
+    n_fns = 0
+    for g in sorted(trees):
+        t = trees[g]
+        cnt = Counter(lambda n, g=g: weight(g, n))
+        cnt.note(cnt.ev(t["body"], {()}))
+        if not cnt.best:
+            continue
+        n_fns += 1
+        f = F.fns[g]
+        rep.ob(rid, "%s/at-most-once" % g.rsplit("::", 1)[-1], cnt.best <= 1,
+               "%s can reach the set-once setter (%s) %d times on one path through one processed item (calls at lines %s): a key taken from an export specifier may be the reserved word - `enum E {..}; export { E as default }` - and the second call panics (`already set`) instead of giving code or a diagnostic"
+               % (g, ", ".join(sorted(set(setters.values()))), cnt.best, cnt.where),
+               "%s:%s" % (f.file, cnt.where[0] if cnt.where else f.line), sample={"fn": g, "max_setter_reaches_on_one_path": cnt.best, "lines": cnt.where})
+    rep.floor(rid, "functions that can reach a set-once setter with a specifier-derived key", n_fns, 2)
+    rep.rules[rid].setdefault("instances", []).append({"tainted_fields": sorted("%s.%s" % tf for tf in tainted_fields), "keyed_wrappers": {k: v[1] for k, v in keyed.items()}, "helper_wrappers": {k: list(v) for k, v in wrappers2.items()}})
